@@ -4,6 +4,8 @@ import SpoxModel.Lemmas.Reach
 import SpoxModel.Generated.RenamesIR
 import SpoxModel.Lemmas.FrontIR
 import SpoxModel.Generated.BuildFrontIR
+import SpoxModel.Model.FrontFacts
+import SpoxModel.Generated.FrontFacts
 /-!
 # C03 — the model's inputs and outputs are exactly what was requested
 
@@ -379,5 +381,14 @@ example : errOf (FrontIR.run buildIR ir exP id ⟨exIns, [], false⟩ (fun _ => 
   decide
 example : errOf (FrontIR.run buildIR ir exP id ⟨exIns ++ [⟨"y0", 2⟩], exOuts, false⟩ (fun _ => none)).2 = some .type := by
   decide
+
+/-- Size boundary (tie G): the only functions on the build path that call themselves are the three
+    whose recursion follows *nesting* (`Builder.discover` over subgraphs, `_strip_dim_symbol` over
+    Sequence/Optional types, `rename_in_graph` over the subgraphs of an inlined model). Nothing
+    recurses along dependency edges, so the length of an operator chain is not bounded by Python's
+    recursion limit — the clauses above hold for programs of any size, as the theorems (which have
+    no size hypothesis) say. The run also builds chains of 1200 / 3000 operators. -/
+theorem recursion_only_along_nesting :
+    FrontFacts.recursionOk Generated.FrontFacts.recursive = true := by decide
 
 end C03
